@@ -141,6 +141,11 @@ func (w *walker) attrs(path string, in, out pcommon.Map, top bool, inherited mod
 		if !top {
 			where = "nested"
 		}
+		if !w.all && len(b) < len(a) && w.explainedByKeyCollision(a, b, top) {
+			w.bad("list mode: obfuscated key collides with an unlisted key of the same map (one attribute overwritten)",
+				fmt.Sprintf("%s: %d attributes in, %d out; keys in [%s] out [%s]", path, len(a), len(b), ks(a), ks(b)))
+			return
+		}
 		w.bad(fmt.Sprintf("attributes %s (%s map)", cls, where), fmt.Sprintf("%s: %d attributes in, %d out; keys in [%s] out [%s]", path, len(a), len(b), ks(a), ks(b)))
 		return
 	}
@@ -168,6 +173,71 @@ func (w *walker) attrs(path string, in, out pcommon.Map, top bool, inherited mod
 		}
 		w.value(p, a[i].v, b[i].v, vm, vm)
 	}
+}
+
+// explainedByKeyCollision recognises the one way a correct list-mode rewrite can lose an
+// attribute: the substitute of a listed key equals an unlisted key present in the same map, so the
+// second Put overwrites the first. Then every unlisted input key is still an output key, the
+// other output keys are as many as (listed keys - lost attributes), each with the byte length of
+// a distinct listed key, and each lost attribute can be paired with an unlisted key of the same
+// length as some listed key.
+func (w *walker) explainedByKeyCollision(in, out []kv, top bool) bool {
+	outKeys := map[string]bool{}
+	for _, e := range out {
+		outKeys[e.k] = true
+	}
+	var listedLens []int
+	unl := map[string]bool{}
+	for _, e := range in {
+		if w.listed[e.k] {
+			listedLens = append(listedLens, len(e.k))
+		} else {
+			unl[e.k] = true
+			if !outKeys[e.k] {
+				return false // an unlisted attribute really disappeared
+			}
+		}
+	}
+	lost := len(in) - len(out)
+	var extra []int
+	for k := range outKeys {
+		if !unl[k] {
+			extra = append(extra, len(k))
+		}
+	}
+	if len(extra) != len(listedLens)-lost {
+		return false
+	}
+	// every extra output key must have the length of a distinct listed key
+	used := make([]bool, len(listedLens))
+	for _, l := range extra {
+		ok := false
+		for i, ll := range listedLens {
+			if !used[i] && ll == l {
+				used[i], ok = true, true
+				break
+			}
+		}
+		if !ok {
+			return false
+		}
+	}
+	// the remaining listed keys (those that collided) need an unlisted key of the same length
+	for i, ll := range listedLens {
+		if used[i] {
+			continue
+		}
+		ok := false
+		for k := range unl {
+			if len(k) == ll {
+				ok = true
+			}
+		}
+		if !ok {
+			return false
+		}
+	}
+	return true
 }
 
 // value compares one AnyValue pair: scalar strings/bytes use mode m, anything nested uses nested.
@@ -640,7 +710,7 @@ func (in *instance) finish(c *vc.Case) {
 	c.Count("distinct_originals", int64(len(in.table.F)))
 	for l, n := range in.table.ByLen {
 		if l <= 2 {
-			c.Count(fmt.Sprintf("distinct_originals_of_length_%d", l), int64(n))
+			c.Max(fmt.Sprintf("max_distinct_originals_of_length_%d_in_one_instance", l), int64(n))
 		}
 		c.Max("max_original_length", int64(l))
 	}
@@ -654,8 +724,8 @@ func TestC17(t *testing.T) {
 		Rule:        "case = one processor instance (its own random key) fed a sequence of hostile documents (attributes of every value type incl. nested lists/maps up to 16 deep, empty / one-byte / odd- and even-length / non-ASCII / invalid-UTF-8 strings, duplicates across positions and documents) in one of the modes {encrypt_all, encrypt_attributes with listed AND unlisted keys present, listed keys holding nested maps/lists} for traces, logs or metrics (all metric kinds). Oracle: paired walk of (deep copy of the input, what the next consumer received): same number and order of resources/scopes/records/events/links, same number of attributes in every map at every depth, same value type at every position, numeric/bool and every non-targeted value byte-identical (a protobuf comparison of both documents with attribute maps and targeted names blanked covers every other field); for targeted strings a table F per processor instance, accumulated over the whole case, must be a function, injective and byte-length preserving. Layer 'onebyte' presents all 256 one-byte strings (exhaustive), layer 'twobyte' (thorough) all 65,536 two-byte strings. Non-trivial = case whose table holds >=2 distinct originals that were changed. Distinct = (signal, mode, listed keys, #distinct originals bucket).",
 		Assumptions: []string{"which strings are targeted follows the code's behaviour in encrypt_all (attribute keys, string/bytes attribute values at any depth, for traces also scope name/version, span name, status message, event name); in list mode only attributes whose key is listed; for strings nested below a listed key and for the named trace fields in list mode the intent is undocumented, so byte-identical OR F(original) is accepted there", "identity substitutes are allowed (a permutation may have fixed points); 'really encrypted' is decided by consistency of F across positions"},
 		Gates: map[string]map[string]int{
-			"quick":    {"documents": 2500, "substitution_pairs_observed": 20000, "distinct_originals_of_length_1": 256, "unlisted_attributes_present": 500, "listed_attributes_present": 500},
-			"thorough": {"documents": 25000, "substitution_pairs_observed": 400000, "distinct_originals_of_length_1": 256, "distinct_originals_of_length_2": 65536, "unlisted_attributes_present": 10000, "listed_attributes_present": 10000},
+			"quick":    {"documents": 2500, "substitution_pairs_observed": 20000, "max_distinct_originals_of_length_1_in_one_instance": 256, "unlisted_attributes_present": 500, "listed_attributes_present": 500},
+			"thorough": {"documents": 25000, "substitution_pairs_observed": 400000, "max_distinct_originals_of_length_1_in_one_instance": 256, "max_distinct_originals_of_length_2_in_one_instance": 65536, "unlisted_attributes_present": 10000, "listed_attributes_present": 10000},
 		},
 		ExhaustiveLayers: []string{"onebyte (all 256 one-byte strings)", "twobyte (thorough: all 65,536 two-byte strings)"},
 	})
@@ -722,6 +792,22 @@ func TestC17(t *testing.T) {
 			c.Nontrivial(true)
 		})
 	}
+	// deterministic witness of the open known finding D16 (substitute key collides with an unlisted key)
+	r.Layer("collision-witness", 3, func(c *vc.Case) {
+		in, err := newInstance(c.Idx%3, false, []string{"a", "b"})
+		if err != nil {
+			c.Inconclusive(err.Error())
+			return
+		}
+		m := pcommon.NewMap()
+		for i := 0; i < 256; i++ {
+			m.PutInt(string([]byte{byte(i)}), int64(i))
+		}
+		in.feedMap(c, m, 0)
+		in.finish(c)
+		c.FP("collision-witness", fmt.Sprint(c.Idx))
+		c.Nontrivial(true)
+	})
 	// length sweep: every length 0..300, several strings per length, as values, keys, bytes, nested
 	r.Layer("lengths", e.Pick(6, 60), func(c *vc.Case) {
 		sig := c.Idx % 3
